@@ -540,7 +540,8 @@ def run_check(
         if exit_code == 0:
             exit_code = 2
     elif statuses["aborted"]:
-        print(f"note: {statuses['aborted']}/{total_runs} runs aborted (not this property's subject)", flush=True)
+        why = next((pr["detail"][:200] for _, pr in problems if pr["status"] == "aborted"), "")
+        print(f"note: {statuses['aborted']}/{total_runs} runs aborted (not this property's subject), e.g. {why}", flush=True)
 
     wall = time.time() - t_start
     write_evidence(prop, tier, base_seed, level, rule, agg, plans, wall, violations_reported, assumptions, real_vs_stub, statuses, sorted(known_printed))
